@@ -5,7 +5,6 @@ package main
 // XML-DSig signing through goxmldsig, XML-Enc encryption written out by hand.
 
 import (
-	"strings"
 	"bytes"
 	"compress/flate"
 	"crypto"
@@ -26,6 +25,7 @@ import (
 	"math/big"
 	"os"
 	"path/filepath"
+	"strings"
 	"sync"
 	"time"
 
